@@ -19,6 +19,7 @@ import (
 	"os"
 	"strconv"
 	"strings"
+	"time"
 
 	"golang.org/x/perf/benchfmt"
 	"golang.org/x/perf/benchfmt/internal/bytesconv"
@@ -159,79 +160,129 @@ func lineCase(iters, num string, tag string, withSpec bool) {
 		return
 	}
 	ib, nb := []byte(iters), []byte(num)
-	defer func() {
-		if r := recover(); r != nil {
-			hx.Printf("crash %d panic: %s\n", myid, strings.ReplaceAll(fmt.Sprint(r), "\n", " "))
+	run(myid, func() string {
+		return fmt.Sprintf("case %d kind=line iters=%s num=%s spec=%d tag=%s+hang\n", myid, hx.HexS(iters), hx.HexS(num), b01(withSpec), tag)
+	}, func(p func(string, ...any)) {
+		// mechanisms reached
+		mant, exp, neg, trunc, hex, ok := bytesconv.VerifReadFloat(nb)
+		pf, pferr := bytesconv.ParseFloat(nb, 64)
+		cls := errKind(pferr)
+		if cls == "ok" {
+			_, sp := bytesconv.VerifSpecial(nb)
+			_, ex := bytesconv.VerifAtof64Exact(mant, exp, neg)
+			switch {
+			case sp:
+				cls = "special"
+			case hex:
+				cls = "hex"
+			case allDigits(nb):
+				cls = "int"
+			case ok && !trunc && ex:
+				cls = "exact"
+			default:
+				cls = "slow"
+			}
 		}
+		if strings.HasPrefix(cls, "other") {
+			cls = "other"
+		}
+		p("case %d kind=line iters=%s num=%s spec=%d tag=%s+%s\n", myid, hx.HexS(iters), hx.HexS(num), b01(withSpec), tag, cls)
+
+		rd := readLine(ib, nb)
+		p("obs %d rd=%s\n", myid, rd)
+
+		ra, raerr := benchfmt.VerifAtofC03(nb)
+		ai, aierr := bytesconv.Atoi(ib)
+		pi, pierr := bytesconv.ParseInt(ib, 10, 0)
+		pu, puerr := bytesconv.ParseUint(ib, 10, 64)
+		p("obs %d pf=%s:%s ra=%s:%s ai=%d:%s pi=%d:%s pu=%d:%s uok=%d\n", myid,
+			canon(pf), errKind(pferr), canon(ra), errKind(raerr), ai, errKind(aierr), pi, errKind(pierr), pu, errKind(puerr),
+			b01(bytesconv.VerifUnderscoreOK(nb)))
+		spv, spok := bytesconv.VerifSpecial(nb)
+		sps := "-"
+		if spok {
+			sps = canon(spv)
+		}
+		rf := fmt.Sprintf("fail:%d", b01(hex))
+		exs, hxs := "-", "-"
+		if ok {
+			rf = fmt.Sprintf("ok:%d:%d:%d:%d:%d", mant, exp, b01(neg), b01(trunc), b01(hex))
+			if hex {
+				v, err := bytesconv.VerifAtofHex(nb, mant, exp, neg, trunc)
+				hxs = canon(v) + ":" + errKind(err)
+			} else if v, ok := bytesconv.VerifAtof64Exact(mant, exp, neg); ok {
+				exs = canon(v)
+			}
+		}
+		p("obs %d sp=%s rf=%s ex=%s hx=%s\n", myid, sps, rf, exs, hxs)
+		// the multiprecision slow path alone (d.set + floatBits), whatever path atof64 took; chk=ok is the
+		// driver's self-check "mirrored slow path = specified slow path" (a model error shows as a K diff)
+		sb, sovf, sok, strunc := bytesconv.VerifSlowPath(nb)
+		sl := "syntax"
+		if sok {
+			sl = canon(math.Float64frombits(sb)) + ":" + map[bool]string{false: "ok", true: "range"}[sovf] + ":" + strconv.Itoa(b01(strunc))
+		}
+		p("obs %d sl=%s chk=ok pfm=%s:%s ram=%s:%s\n", myid, sl, canon(pf), errKind(pferr), canon(ra), errKind(raerr))
+
+		if withSpec {
+			srd := strings.Replace(strings.Replace(rd, "err:iters-syntax", "err:iters", 1), "err:iters-range", "err:iters", 1)
+			p("sobs %d impl rd=%s\n", myid, srd)
+			sf, sferr := strconv.ParseFloat(num, 64)
+			si, sierr := strconv.Atoi(iters)
+			p("sobs %d strconv val=%s iters=%s\n", myid, specVal(sf, sferr), specInt(si, sierr))
+			p("sobs %d direct val=%s ratof=%s iters=%s\n", myid, specVal(pf, pferr), specVal(ra, raerr), specInt(ai, aierr))
+		}
+	})
+}
+
+// run executes one case's calls into the real code under a watchdog ("never panics, never hangs").
+// The body writes its lines through p into a private buffer that is printed when the body returns.
+// A panic becomes a `crash` line; so does a hang: after guardLimit the case is abandoned (its
+// goroutine cannot be killed), the case line is printed with the tag `hang` and a `crash` line
+// follows, so that check.py has a failing input to replay. After three hangs the remaining cases
+// are not run any more (each would leave another spinning goroutine).
+const guardLimit = 5 * time.Second
+
+var hangs int
+
+func run(myid int, fallbackCase func() string, body func(p func(string, ...any))) {
+	if hangs >= 3 {
+		// not run: only the case line (the missing observations show up as K differences; the
+		// failing inputs are the three cases that hung)
+		hx.Printf("%s", strings.Replace(fallbackCase(), "+hang\n", "+notrun\n", 1))
+		return
+	}
+	type result struct {
+		out   []byte
+		panic string
+	}
+	done := make(chan result, 1)
+	go func() {
+		var b bytes.Buffer
+		p := func(format string, a ...any) { fmt.Fprintf(&b, format, a...) }
+		defer func() {
+			if r := recover(); r != nil {
+				done <- result{b.Bytes(), strings.ReplaceAll(fmt.Sprint(r), "\n", " ")}
+				return
+			}
+			done <- result{b.Bytes(), ""}
+		}()
+		body(p)
 	}()
-	// mechanisms reached
-	mant, exp, neg, trunc, hex, ok := bytesconv.VerifReadFloat(nb)
-	pf, pferr := bytesconv.ParseFloat(nb, 64)
-	cls := errKind(pferr)
-	if cls == "ok" {
-		_, sp := bytesconv.VerifSpecial(nb)
-		_, ex := bytesconv.VerifAtof64Exact(mant, exp, neg)
-		switch {
-		case sp:
-			cls = "special"
-		case hex:
-			cls = "hex"
-		case allDigits(nb):
-			cls = "int"
-		case ok && !trunc && ex:
-			cls = "exact"
-		default:
-			cls = "slow"
+	select {
+	case res := <-done:
+		if res.panic != "" && !bytes.HasPrefix(res.out, []byte("case ")) {
+			hx.Printf("%s", fallbackCase())
 		}
-	}
-	if strings.HasPrefix(cls, "other") {
-		cls = "other"
-	}
-	hx.Printf("case %d kind=line iters=%s num=%s spec=%d tag=%s+%s\n", myid, hx.HexS(iters), hx.HexS(num), b01(withSpec), tag, cls)
-
-	rd := readLine(ib, nb)
-	hx.Printf("obs %d rd=%s\n", myid, rd)
-
-	ra, raerr := benchfmt.VerifAtofC03(nb)
-	ai, aierr := bytesconv.Atoi(ib)
-	pi, pierr := bytesconv.ParseInt(ib, 10, 0)
-	pu, puerr := bytesconv.ParseUint(ib, 10, 64)
-	hx.Printf("obs %d pf=%s:%s ra=%s:%s ai=%d:%s pi=%d:%s pu=%d:%s uok=%d\n", myid,
-		canon(pf), errKind(pferr), canon(ra), errKind(raerr), ai, errKind(aierr), pi, errKind(pierr), pu, errKind(puerr),
-		b01(bytesconv.VerifUnderscoreOK(nb)))
-	spv, spok := bytesconv.VerifSpecial(nb)
-	sps := "-"
-	if spok {
-		sps = canon(spv)
-	}
-	rf := fmt.Sprintf("fail:%d", b01(hex))
-	exs, hxs := "-", "-"
-	if ok {
-		rf = fmt.Sprintf("ok:%d:%d:%d:%d:%d", mant, exp, b01(neg), b01(trunc), b01(hex))
-		if hex {
-			v, err := bytesconv.VerifAtofHex(nb, mant, exp, neg, trunc)
-			hxs = canon(v) + ":" + errKind(err)
-		} else if v, ok := bytesconv.VerifAtof64Exact(mant, exp, neg); ok {
-			exs = canon(v)
+		hx.Out.Write(res.out)
+		if res.panic != "" {
+			hx.Printf("crash %d panic: %s\n", myid, res.panic)
 		}
-	}
-	hx.Printf("obs %d sp=%s rf=%s ex=%s hx=%s\n", myid, sps, rf, exs, hxs)
-	// the multiprecision slow path alone (d.set + floatBits), whatever path atof64 took; chk=ok is the
-	// driver's self-check "mirrored slow path = specified slow path" (a model error shows as a K diff)
-	sb, sovf, sok, strunc := bytesconv.VerifSlowPath(nb)
-	sl := "syntax"
-	if sok {
-		sl = canon(math.Float64frombits(sb)) + ":" + map[bool]string{false: "ok", true: "range"}[sovf] + ":" + strconv.Itoa(b01(strunc))
-	}
-	hx.Printf("obs %d sl=%s chk=ok pfm=%s:%s ram=%s:%s\n", myid, sl, canon(pf), errKind(pferr), canon(ra), errKind(raerr))
-
-	if withSpec {
-		srd := strings.Replace(strings.Replace(rd, "err:iters-syntax", "err:iters", 1), "err:iters-range", "err:iters", 1)
-		hx.Printf("sobs %d impl rd=%s\n", myid, srd)
-		sf, sferr := strconv.ParseFloat(num, 64)
-		si, sierr := strconv.Atoi(iters)
-		hx.Printf("sobs %d strconv val=%s iters=%s\n", myid, specVal(sf, sferr), specInt(si, sierr))
-		hx.Printf("sobs %d direct val=%s ratof=%s iters=%s\n", myid, specVal(pf, pferr), specVal(ra, raerr), specInt(ai, aierr))
+	case <-time.After(guardLimit):
+		hangs++
+		hx.Printf("%s", fallbackCase())
+		hx.Printf("crash %d hang: no answer from the real code within %v\n", myid, guardLimit)
+		hx.Flush()
 	}
 }
 
@@ -255,19 +306,18 @@ func exactCase(mant uint64, exp int, neg bool) {
 	if !mine(myid) {
 		return
 	}
-	defer func() {
-		if r := recover(); r != nil {
-			hx.Printf("crash %d panic: %s\n", myid, strings.ReplaceAll(fmt.Sprint(r), "\n", " "))
+	run(myid, func() string {
+		return fmt.Sprintf("case %d kind=exact mant=%d exp=%d neg=%d tag=exactd\n", myid, mant, exp, b01(neg))
+	}, func(p func(string, ...any)) {
+		p("case %d kind=exact mant=%d exp=%d neg=%d tag=exactd\n", myid, mant, exp, b01(neg))
+		v, ok := bytesconv.VerifAtof64Exact(mant, exp, neg)
+		if ok {
+			p("obs %d ex=%s\n", myid, canon(v))
+			p("sobs %d ex=%s\n", myid, canon(v))
+		} else {
+			p("obs %d ex=-\n", myid)
 		}
-	}()
-	hx.Printf("case %d kind=exact mant=%d exp=%d neg=%d tag=exactd\n", myid, mant, exp, b01(neg))
-	v, ok := bytesconv.VerifAtof64Exact(mant, exp, neg)
-	if ok {
-		hx.Printf("obs %d ex=%s\n", myid, canon(v))
-		hx.Printf("sobs %d ex=%s\n", myid, canon(v))
-	} else {
-		hx.Printf("obs %d ex=-\n", myid)
-	}
+	})
 }
 
 func hexCase(mant uint64, exp int, neg, trunc bool) {
@@ -276,17 +326,16 @@ func hexCase(mant uint64, exp int, neg, trunc bool) {
 	if !mine(myid) {
 		return
 	}
-	defer func() {
-		if r := recover(); r != nil {
-			hx.Printf("crash %d panic: %s\n", myid, strings.ReplaceAll(fmt.Sprint(r), "\n", " "))
+	run(myid, func() string {
+		return fmt.Sprintf("case %d kind=hexd mant=%d exp=%d neg=%d trunc=%d tag=hexd\n", myid, mant, exp, b01(neg), b01(trunc))
+	}, func(p func(string, ...any)) {
+		p("case %d kind=hexd mant=%d exp=%d neg=%d trunc=%d tag=hexd\n", myid, mant, exp, b01(neg), b01(trunc))
+		v, err := bytesconv.VerifAtofHex(nil, mant, exp, neg, trunc)
+		p("obs %d hx=%s:%s\n", myid, canon(v), errKind(err))
+		if !trunc {
+			p("sobs %d hx=%s\n", myid, specVal(v, err))
 		}
-	}()
-	hx.Printf("case %d kind=hexd mant=%d exp=%d neg=%d trunc=%d tag=hexd\n", myid, mant, exp, b01(neg), b01(trunc))
-	v, err := bytesconv.VerifAtofHex(nil, mant, exp, neg, trunc)
-	hx.Printf("obs %d hx=%s:%s\n", myid, canon(v), errKind(err))
-	if !trunc {
-		hx.Printf("sobs %d hx=%s\n", myid, specVal(v, err))
-	}
+	})
 }
 
 // rintCase: the rounding step of the decimal slow path (decimal.RoundedInteger / shouldRoundUp).
@@ -296,22 +345,21 @@ func rintCase(digits string, dp int, trunc bool) {
 	if !mine(myid) {
 		return
 	}
-	defer func() {
-		if r := recover(); r != nil {
-			hx.Printf("crash %d panic: %s\n", myid, strings.ReplaceAll(fmt.Sprint(r), "\n", " "))
+	run(myid, func() string {
+		return fmt.Sprintf("case %d kind=rint d=%s dp=%d trunc=%d tag=rint\n", myid, hexOrDash([]byte(digits)), dp, b01(trunc))
+	}, func(p func(string, ...any)) {
+		ds := "-"
+		if digits != "" {
+			ds = hx.HexS(digits)
 		}
-	}()
-	ds := "-"
-	if digits != "" {
-		ds = hx.HexS(digits)
-	}
-	hx.Printf("case %d kind=rint d=%s dp=%d trunc=%d tag=rint\n", myid, ds, dp, b01(trunc))
-	n, up := bytesconv.VerifRoundedInteger([]byte(digits), dp, trunc)
-	hx.Printf("obs %d n=%d up=%d\n", myid, n, b01(up))
-	// S: a trimmed, untruncated decimal whose integer part fits is rounded half-even
-	if !trunc && dp >= 0 && dp <= 19 && (digits == "" || digits[len(digits)-1] != '0') {
-		hx.Printf("sobs %d n=%d\n", myid, n)
-	}
+		p("case %d kind=rint d=%s dp=%d trunc=%d tag=rint\n", myid, ds, dp, b01(trunc))
+		n, up := bytesconv.VerifRoundedInteger([]byte(digits), dp, trunc)
+		p("obs %d n=%d up=%d\n", myid, n, b01(up))
+		// S: a trimmed, untruncated decimal whose integer part fits is rounded half-even
+		if !trunc && dp >= 0 && dp <= 19 && (digits == "" || digits[len(digits)-1] != '0') {
+			p("sobs %d n=%d\n", myid, n)
+		}
+	})
 }
 
 // hexRoundingFamily enumerates the rounding situations of a hex float systematically:
@@ -422,14 +470,13 @@ func dshiftCase(digits string, dp int, trunc bool, k int) {
 	if !mine(myid) {
 		return
 	}
-	defer func() {
-		if r := recover(); r != nil {
-			hx.Printf("crash %d panic: %s\n", myid, strings.ReplaceAll(fmt.Sprint(r), "\n", " "))
-		}
-	}()
-	hx.Printf("case %d kind=dshift d=%s dp=%d trunc=%d k=%d tag=dshift\n", myid, hexOrDash([]byte(digits)), dp, b01(trunc), k)
-	d2, dp2, tr2 := bytesconv.VerifDecShift([]byte(digits), dp, trunc, k)
-	hx.Printf("obs %d d=%s dp=%d trunc=%d\n", myid, hexOrDash(d2), dp2, b01(tr2))
+	run(myid, func() string {
+		return fmt.Sprintf("case %d kind=dshift d=%s dp=%d trunc=%d k=%d tag=dshift\n", myid, hexOrDash([]byte(digits)), dp, b01(trunc), k)
+	}, func(p func(string, ...any)) {
+		p("case %d kind=dshift d=%s dp=%d trunc=%d k=%d tag=dshift\n", myid, hexOrDash([]byte(digits)), dp, b01(trunc), k)
+		d2, dp2, tr2 := bytesconv.VerifDecShift([]byte(digits), dp, trunc, k)
+		p("obs %d d=%s dp=%d trunc=%d\n", myid, hexOrDash(d2), dp2, b01(tr2))
+	})
 }
 
 // dfbCase: the real decimal.floatBits.
@@ -439,14 +486,13 @@ func dfbCase(digits string, dp int, neg, trunc bool) {
 	if !mine(myid) {
 		return
 	}
-	defer func() {
-		if r := recover(); r != nil {
-			hx.Printf("crash %d panic: %s\n", myid, strings.ReplaceAll(fmt.Sprint(r), "\n", " "))
-		}
-	}()
-	hx.Printf("case %d kind=dfb d=%s dp=%d neg=%d trunc=%d tag=dfb\n", myid, hexOrDash([]byte(digits)), dp, b01(neg), b01(trunc))
-	b, ovf, tr := bytesconv.VerifDecFloatBits([]byte(digits), dp, neg, trunc)
-	hx.Printf("obs %d bits=%016x ovf=%d trunc=%d\n", myid, b, b01(ovf), b01(tr))
+	run(myid, func() string {
+		return fmt.Sprintf("case %d kind=dfb d=%s dp=%d neg=%d trunc=%d tag=dfb\n", myid, hexOrDash([]byte(digits)), dp, b01(neg), b01(trunc))
+	}, func(p func(string, ...any)) {
+		p("case %d kind=dfb d=%s dp=%d neg=%d trunc=%d tag=dfb\n", myid, hexOrDash([]byte(digits)), dp, b01(neg), b01(trunc))
+		b, ovf, tr := bytesconv.VerifDecFloatBits([]byte(digits), dp, neg, trunc)
+		p("obs %d bits=%016x ovf=%d trunc=%d\n", myid, b, b01(ovf), b01(tr))
+	})
 }
 
 func cheatsCase() {
